@@ -23,6 +23,16 @@ Proof. exact quiet_transition. Qed.
 Example C09_nonvacuous : table SFired SFired = [EFired] /\ table SNone SNone = [].
 Proof. split; reflexivity. Qed.
 
+(* ---- app stage: the executable judgement of coq/Check is sound for the model on every scenario of the profile, and transfers
+   to every trace that agrees with the model's run ---- *)
+From BEI Require Check.C09c Proofs.JudgeC09P.
+Theorem C09_app_judgement_sound : forall sc, JudgeC09P.profile_C09b sc = true -> C09c.ok (sc, App.trace (App.run sc)) = 0%Z.
+Proof. exact JudgeC09P.C09_app_judgement_sound. Qed.
+
+Theorem C09_app_judgement_transfer : forall sc t, JudgeC09P.profile_C09b sc = true -> App.agree_full (sc, t) = true -> C09c.ok (sc, t) = 0%Z.
+Proof. exact JudgeC09P.C09_app_judgement_transfer. Qed.
+
+
 Print Assumptions C09_injection_mode_irrelevant.
 Print Assumptions C09_same_frame.
 Print Assumptions C09_quiet_frame.
@@ -50,3 +60,5 @@ Proof.
   repeat split; intros Hc; [apply Q1 | apply Q2 | apply Q3]; destruct k; cbn in Hc; try discriminate; exact Hk.
 Qed.
 Print Assumptions C09_world_quiet_frame.
+Print Assumptions C09_app_judgement_sound.
+Print Assumptions C09_app_judgement_transfer.
